@@ -465,6 +465,18 @@ DIMS = [(640, 360), (1920, 1080), (None, 360), (640, None), (None, None), (3, 7)
 REL = Fraction(1, 10**9)
 
 
+def heap_paths(l):
+    o, e, p = l.origin, l.extent, l.padding
+    g = lambda x, f: None if x is None else getattr(x, f)  # noqa: E731
+    return [l, o, g(o, "x"), g(o, "y"), e, g(e, "horizontal"), g(e, "vertical"), p, g(p, "before"), g(p, "after"),
+            g(p, "start"), g(p, "end"), l.alignment]
+
+
+def heap_profile(result, receiver):
+    """per path: 1 the receiver's own object, 0 another object, 2 None"""
+    return [2 if a is None else (1 if a is b else 0) for a, b in zip(heap_paths(result), heap_paths(receiver))]
+
+
 def close_plain(a, b):
     """plain layouts (exact rationals): equal up to 1e-9 relative on the values, alignment equal"""
     for i in range(3):
@@ -484,6 +496,7 @@ def stream_fresh(ctx, res):
     n_changed = 0
     n_model = 0
     pending = []
+    heap_pending = []
     oq = lambda x: None if x is None else Some(exact(x))  # noqa: E731
     for i in range(ctx.n(4000, 100000)):
         kind = rng.choice(["size", "point", "stretch", "padding", "layout", "layout", "layout"])
@@ -511,8 +524,9 @@ def stream_fresh(ctx, res):
             ops = [lambda o: o.as_percentage_of(w, h), lambda o: o.fit_to_screen()]
             wl = geom.w_layout(obj)
             model_req = [(1302, [True, False, oq(w), oq(h), wl]), (1302, [False, True, None, None, wl])]
+            heap_req = [(1815, [0, oq(w), oq(h), wl]), (1815, [1, None, None, wl])]
         reqs = model_req if model_req else [None] * len(ops)
-        for op, rq in zip(ops, reqs):
+        for oi, (op, rq) in enumerate(zip(ops, reqs)):
             before = geom.value_snap(obj)
             r = impl.call(op, obj)
             after = geom.value_snap(obj)
@@ -531,6 +545,10 @@ def stream_fresh(ctx, res):
                             + ("the receiver was modified" if before != after else "equal receivers gave different results"),
                     "impl_obs": [repr(before), repr(after)]})
                 continue
+            if kind == "layout":
+                # heap model (GeomStore.v, request 1815): which objects of the result are the receiver's own
+                heap_pending.append((heap_req[oi], r if isinstance(r, Err) else Ok((geom.p_layout(r.v), heap_profile(r.v, obj))),
+                                     [kind, x, w, h, oi]))
             if rq is not None:
                 if kind == "size":
                     o = Ok((exact(r.v.value), geom.UNITS.index(r.v.unit))) if isinstance(r, Ok) else r
@@ -548,6 +566,24 @@ def stream_fresh(ctx, res):
             good = (isinstance(o, Err) and o == mm) or (isinstance(o, Ok) and isinstance(mm, Ok) and close_plain(o.v, mm.v))
         if not good:
             res["disagreements"].append({"stream": "fresh", "input": inp, "impl": repr(o)[:300], "model": repr(mm)[:300]})
+    n_heap, prof, n_prof_diff = 0, {}, 0
+    for (rq, o, inp), m in zip(heap_pending, oracle_batch([p[0] for p in heap_pending])):
+        mm = r_result(m, lambda y: (geom.r_o(y[0], geom.r_layout), list(y[1])))
+        n_heap += 1
+        good = (isinstance(o, Err) and o == mm) or (isinstance(o, Ok) and isinstance(mm, Ok) and mm.v[0] is not None
+                                                    and close_plain(o.v[0], mm.v[0]))
+        if good and isinstance(o, Ok) and o.v[1] != mm.v[1]:
+            # which sub-objects are shared is not part of the statement (a rewrite that copies the alignment is harmless):
+            # counted, not flagged
+            n_prof_diff += 1
+        if isinstance(o, Ok):
+            key = "".join(map(str, o.v[1]))
+            prof[key] = prof.get(key, 0) + 1
+        if not good:
+            res["disagreements"].append({"stream": "heap", "input": inp, "impl": repr(o)[:400], "model": repr(mm)[:400]})
+    res["distribution"]["heap_model_layout_calls_compared(result value and which objects are the receiver's own)"] = n_heap
+    res["distribution"]["heap_sharing_profiles_seen"] = len(prof)
+    res["distribution"]["heap_sharing_profiles_differing_from_the_model(information: sharing is not in the statement)"] = n_prof_diff
     res["distribution"]["fresh_results_differing_from_receiver"] = n_changed
     res["distribution"]["fresh_results_compared_with_the_model"] = n_model
 
